@@ -292,13 +292,16 @@ fn run(ctx: &Ctx) {
     if !ctx.run_prop("arbitrary_lists", RULE, ctx.cases(8000, 960_000), strat, check) {
         return;
     }
-    ctx.run_prop("ledger_dsl_json_reports", RULE_REPORT, ctx.cases(1200, 100_000), strat_ledger, check_report);
+    if !ctx.run_prop("ledger_dsl_json_reports", RULE_REPORT, ctx.cases(1200, 100_000), strat_ledger, check_report) {
+        return;
+    }
+    crate::props::proc_checks::c14_mcp(ctx);
 }
 
 fn replay(name: &str, case: &Value) -> Option<Verdict> {
     match name {
         "arbitrary_lists" => Some(replay_case::<Case, _>(case, check).unwrap_or_else(Verdict::Fail)),
         "ledger_dsl_json_reports" => Some(replay_case::<GenLedger, _>(case, check_report).unwrap_or_else(Verdict::Fail)),
-        _ => None,
+        other => crate::props::proc_checks::replay(other, case),
     }
 }
